@@ -51,4 +51,21 @@ Essential(buf, M1, M2) ==
   LET st == FirstMarker(buf, M1, M2) IN
     IF st # 0 THEN SubSeq(buf, st, Len(buf))
     ELSE IF buf # <<>> /\ buf[Len(buf)] = M1 THEN <<M1>> ELSE <<>>
+\* the bounded receive step: same output, but only the essential part is held back
+MarkerReadB(held, chunk, N, M1, M2) ==
+  LET r == MarkerCut(held \o chunk, N, M1, M2) IN [out |-> r.out, rest |-> Essential(r.rest, M1, M2)]
+
+----------------------------------------------------------------------------
+(* One read under discipline d = [kind, N, M1, M2] *)
+Read(d, held, chunk) ==
+  CASE d.kind = "fixed"  -> FixedRead(held, chunk, d.N)
+    [] d.kind = "lines"  -> LineRead(held, chunk)
+    [] d.kind = "marker" -> MarkerReadB(held, chunk, d.N, d.M1, d.M2)
+Whole(d, stream) == Read(d, <<>>, stream).out
+
+\* packets emitted after each of a sequence of chunks (cumulative), by folding Read
+RECURSIVE FoldReads(_, _, _, _)
+FoldReads(d, held, chunks, k) ==
+  IF k > Len(chunks) THEN <<>>
+  ELSE LET r == Read(d, held, chunks[k]) IN <<r.out>> \o FoldReads(d, r.rest, chunks, k + 1)
 =============================================================================
